@@ -59,6 +59,11 @@ def plan(tier, seed):
     groups.append([{"kind": "phys", "xtal": "ortho-P-2", "mesh": [13, 12, 11], "shift": 0, "gc": False, "tr": True}])
     groups.append([{"kind": "phys", "xtal": "NaCl-conv-8", "mesh": [20, 20, 20], "shift": 0, "gc": False, "tr": True, "noprim": True}])
     groups.append([{"kind": "phys", "xtal": "rutile-6", "mesh": [24, 24, 24], "shift": 0, "gc": True, "tr": True}])
+    g = []
+    for name in ("CsCl-2", "sc-1"):
+        for mesh in ([2, 2, 2], [3, 3, 3], [4, 4, 4]):
+            g.append({"kind": "phys", "xtal": name, "mesh": mesh, "shift": 0, "gc": False, "tr": True, "distort": 1e-6})
+    groups.append(g)
     # magnetic order lowering the point group (fcc type-I antiferromagnet, layered bcc antiferromagnet)
     g = []
     for name, mag in (("fcc-conv-4", [1.0, -1.0, -1.0, 1.0]), ("bcc-conv-2", [1.0, -1.0]), ("fcc-conv-4", [1.0, 1.0, 1.0, 1.0])):
@@ -201,11 +206,23 @@ def run_grid(case, seed):
 
 
 def run_phys(case, seed):
-    ck = ("ph", case["xtal"], bool(case.get("nosym")), case.get("nac"), bool(case.get("noprim")), json.dumps(case.get("mag")))
+    ck = ("ph", case["xtal"], bool(case.get("nosym")), case.get("nac"), bool(case.get("noprim")), json.dumps(case.get("mag")), case.get("distort"))
     if ck not in _cache:
         c = phx.xtal(case["xtal"])
         S = [[2, 0, 0], [0, 2, 0], [0, 0, 2]] if len(c["symbols"]) <= 2 else [[1, 0, 0], [0, 1, 0], [0, 0, 1]]
-        if case.get("mag"):
+        if case.get("distort"):
+            # a cubic cell stretched by 1e-6 along c with a user tolerance of 1e-7: the crystal IS tetragonal for that tolerance, and
+            # so are the springs (they follow the distances); every symmetry search of the object has to use the caller's tolerance
+            c = dict(c, lattice=(np.array(c["lattice"], float) * np.array([1.0, 1.0, 1.0 + case["distort"]])[:, None]).tolist())
+            S = [[2, 0, 0], [0, 2, 0], [0, 0, 2]]
+            ph = phx.make_phonopy(c, S, None, symprec=case["distort"] / 10)
+            from vtk.ref import springs as SPd
+
+            sc_ = ph.supercell
+            mdl_ = phx.model_for(ph, "nn", seed)
+            mdl_.decay = 4.0  # distance dependent springs: a 1e-6 strain changes them at the 1e-6 level
+            fc = SPd.folded_fc(np.asarray(sc_.cell), sc_.positions, sc_.symbols, mdl_)
+        elif case.get("mag"):
             # collinear magnetic order that lowers the point group; the springs depend on the spin species, so the force
             # constants have the magnetic symmetry only
             S = [[2, 0, 0], [0, 2, 0], [0, 0, 2]]
